@@ -524,12 +524,42 @@ def check_c30(A: Analysis, col: Collector):
                 guarded = any(isinstance(p, ast.If) for p in parents(n) if is_within(p, wc.node))
                 if from_self and guarded:
                     memo_returns.append(next(p for p in parents(n) if isinstance(p, ast.If)))
+    # dataflow form: a returned value that (also) derives from an attribute stored on the instance
+    if not memo_returns:
+        for n in walk_own(wc.node):
+            if isinstance(n, ast.Return) and n.value is not None:
+                roots = A.flow.derives(n.value, wc)
+                inst_attrs = sorted(a_ for a_ in roots.attrs if a_.startswith("self.") or a_.startswith("_"))
+                stored = {t.attr for a_ in walk_own(wc.node) if isinstance(a_, ast.Assign) for t in a_.targets if isinstance(t, ast.Attribute) and dotted(t.value) == "self"}
+                if any(a_.split(".")[-1] in stored for a_ in roots.attrs):
+                    memo_returns.append(n)
     if not memo_returns:
         col.ok("C30.task-memo", "WorkflowTask.construct returns no unkeyed per-instance memo (construction caching is left to Workflow.construct's keyed cache)", A.loc(wc.node))
     elif keyed or invalidates:
         col.ok("C30.task-memo", "WorkflowTask.construct's memo is keyed by the task's hash / invalidated on assignment", A.loc(wc.node))
     else:
-        col.fail("C30.task-memo", wc.qualname, "unkeyed-memo", f"`{norm(memo_returns[0], 70)}`: the constructed workflow is memoised on the task instance without a key, while the task's inputs stay assignable: after `task.x = new` the next run re-uses the graph built for the old value and stores its result under the new checksum", A.loc(memo_returns[0]))
+        col.fail("C30.task-memo", wc.qualname, "unkeyed-memo", f"`{norm(memo_returns[0], 70)}`: the constructed workflow is memoised on the task instance without a key derived from the input values, while the task's inputs stay assignable and mutable (identity comparisons do not see in-place changes): after `task.x = new` / `task.x.append(...)` the next run re-uses the graph built for the old value and stores its result under the new checksum", A.loc(memo_returns[0]))
+    # a workflow constructor defined inside a function must not read variables of the enclosing scope:
+    # constructed workflows are cached under the hash of the constructor's *inputs* (and source), so a
+    # closed-over value is not part of the key and a later, different value gets the earlier graph
+    n_ctor = 0
+    for f in A.repo.all_functions():
+        for g in f.nested.values():
+            if not any("workflow.define" in norm(d) for d in g.node.decorator_list):
+                continue
+            n_ctor += 1
+            col.scope(g.qualname)
+            gparams = {p_.arg for p_ in g.params()}
+            glocals = {n.id for n in ast.walk(g.node) if isinstance(n, ast.Name) and isinstance(n.ctx, ast.Store)} | {n.name for n in ast.walk(g.node) if isinstance(n, (ast.FunctionDef, ast.ClassDef)) and n is not g.node}
+            outer = {p_.arg for p_ in f.params()} | {n.id for n in walk_own(f.node) if isinstance(n, ast.Name) and isinstance(n.ctx, ast.Store)}
+            body_nodes = [k for st in g.node.body for k in ast.walk(st)]
+            free = sorted({n.id for n in body_nodes if isinstance(n, ast.Name) and isinstance(n.ctx, ast.Load) and n.id not in gparams and n.id not in glocals and n.id in outer})
+            if free:
+                col.fail("C30.closure", g.qualname, "constructor-closes-over:" + "+".join(free), f"the workflow constructor {g.name} (defined inside {f.name}) reads {free} from the enclosing scope: these values are not inputs of the workflow and therefore not part of the construction-cache key, so a later submission with other values is served the workflow constructed for the first ones", A.loc(g.node))
+            else:
+                col.ok("C30.closure", f"{g.qualname}: everything the constructor uses is a parameter (an input of the workflow)", A.loc(g.node))
+    if n_ctor < 1:
+        raise AnalysisError("C30: no nested workflow constructor found (the implicit Split workflow of Submitter.__call__ moved)")
     wf = A.func("pydra.engine.workflow.Workflow.construct")
     col.scope(wf.qualname)
     src = {norm(n.targets[0]): n.value for n in walk_own(wf.node) if isinstance(n, ast.Assign) and isinstance(n.targets[0], ast.Name)}
@@ -708,6 +738,57 @@ def _copy_nested_core(A: Analysis, col: Collector, rule: str):
         col.ok(rule, "copy_nested_files creates a clash set only when the caller supplied none", A.loc(init[0]))
     else:
         col.fail(rule, cn.qualname, "clash-set-reset", "copy_nested_files no longer keeps a caller-supplied clash set", A.loc(cn.node))
+    # every file-set goes through FileSet.copy (which decides leave / link / copy from the mode AND the
+    # collation): copy_fileset returns the memoised copy or the fresh result of fileset.copy(...), never
+    # the file-set it was given
+    fparam = cf.params()[0].arg
+    copy_vars = {t.id for n in walk_own(cf.node) if isinstance(n, ast.Assign) and n.value in calls for t in n.targets if isinstance(t, ast.Name)}
+    for r in [n for n in walk_own(cf.node) if isinstance(n, ast.Return)]:
+        v = r.value
+        ok_ = (isinstance(v, ast.Subscript) and isinstance(v.slice, ast.Name) and v.slice.id == fparam) or (isinstance(v, ast.Name) and v.id in copy_vars) or (v in calls)
+        if ok_:
+            col.ok(rule, f"copy_fileset: `{norm(r)}` hands back the memoised / freshly staged copy", A.loc(r))
+        else:
+            col.fail(rule, cf.qualname, f"fileset-returned-unstaged:{shape(v, 30) if v is not None else None}", f"`{norm(r)}` returns a file-set without passing it through FileSet.copy: the copy mode / collation declared for the field is not applied (a multi-file file-set scattered over several directories is handed to the task as it is although copy_collation asks for siblings)", A.loc(r))
+    # the traversal rebuilds every container from all of its elements
+    ai = A.func("pydra.utils.typing.TypeParser.apply_to_instances")
+    col.scope(ai.qualname)
+    aparams = [p_.arg for p_ in ai.params()]
+    vparam = aparams[3] if len(aparams) > 3 else "value"
+    fn_param = aparams[2] if len(aparams) > 2 else "func"
+    rets = [n for n in walk_own(ai.node) if isinstance(n, ast.Return) and isinstance(n.value, ast.Name) and n.value.id != vparam]
+    result_vars = {r.value.id for r in rets}
+    assigns_ = [n for n in walk_own(ai.node) if isinstance(n, ast.Assign) and isinstance(n.targets[0], ast.Name) and n.targets[0].id in result_vars]
+    A.anchor("assignments to the rebuilt value in apply_to_instances", assigns_)
+
+    def _recursive_over_all(expr) -> bool:
+        comps = [k for k in ast.walk(expr) if isinstance(k, (ast.GeneratorExp, ast.ListComp))]
+        for cmp_ in comps:
+            gen = cmp_.generators[0]
+            over_value = any(isinstance(k, ast.Name) and k.id == vparam for k in ast.walk(gen.iter))
+            recursive = any(isinstance(k, ast.Call) and isinstance(k.func, ast.Attribute) and k.func.attr == ai.name for k in ast.walk(cmp_.elt))
+            if over_value and recursive and not gen.ifs and len(cmp_.generators) == 1:
+                return True
+        return False
+
+    n_cont = 0
+    for a_ in assigns_:
+        v = a_.value
+        if isinstance(v, ast.Call) and isinstance(v.func, ast.Name) and v.func.id == fn_param:
+            col.ok(rule, "apply_to_instances: an instance of the target type is replaced by func(value)", A.loc(a_))
+            continue
+        src = v
+        if isinstance(v, ast.Call) and v.args and isinstance(v.args[0], ast.Name):
+            defs = [d.value for d in walk_own(ai.node) if isinstance(d, ast.Assign) and isinstance(d.targets[0], ast.Name) and d.targets[0].id == v.args[0].id]
+            if len(defs) == 1:
+                src = defs[0]
+        if _recursive_over_all(src) or _recursive_over_all(v):
+            n_cont += 1
+            col.ok(rule, f"apply_to_instances: `{norm(a_, 60)}` rebuilds the container from the recursive application to every element", A.loc(a_))
+        else:
+            col.fail(rule, ai.qualname, f"container-not-fully-traversed:{shape(v, 30)}", f"`{norm(a_, 60)}`: a container is handed back without applying the function to every element: files nested behind a non-file first element ((0.5, File), [3, {{'k': File}}]) are silently left where they are", A.loc(a_))
+    if n_cont < 2:
+        col.fail(rule, ai.qualname, f"container-branches:{n_cont}", f"only {n_cont} of the two container branches (mapping, sequence) of apply_to_instances rebuild their value from every element", A.loc(ai.node))
     app = [k for k in A.calls(cn) if isinstance(k.func, ast.Attribute) and k.func.attr == "apply_to_instances"]
     if app and len(app[0].args) == 3 and norm(app[0].args[1]) == "copy_fileset" and norm(app[0].args[2]) == "value":
         col.ok(rule, "the nested value is rebuilt by TypeParser.apply_to_instances(FileSet, copy_fileset, value) (shape and non-file values preserved)", A.loc(app[0]))
